@@ -332,6 +332,16 @@ func genDoc(r *rand.Rand, o genOpts) *docSpec {
 						al = []string{"right", "left"}[p%2]
 					}
 					t := pageNumText(style, start+p, d.Total)
+					if style == "Page n" { // the word in another letter case is the same running page number
+						switch d.Total % 3 {
+						case 1:
+							t = strings.ToUpper(t)
+							d.feat("pn.word-upper-case")
+						case 2:
+							t = strings.ToLower(t)
+							d.feat("pn.word-lower-case")
+						}
+					}
 					add(unit{Page: p, Role: "pagenum", Band: band, X: alignX(al, d.W[p], t, size), Y: fromEdge(band, d.H[p], dist), Size: size, Text: t, Series: "pn-" + kind})
 				}
 			}
